@@ -35,8 +35,10 @@ TAfter   == IsEvent("AfterClose") /\ ~open
             /\ (Line.lossless => Line.count0 = 0)
             /\ Line.count8 = 0
             /\ UNCHANGED <<open, lost>>
+\* the same client allocates again (KeepAlive!Reopen): from here on the new allocation must stay
+TReopen  == IsEvent("Reopen") /\ ~open /\ open' = TRUE /\ UNCHANGED lost
 TEnd     == IsEvent("End") /\ UNCHANGED <<open, lost>>
-TNext == TReset \/ TProbe \/ TEv \/ TClose \/ TAfter \/ TEnd
+TNext == TReset \/ TProbe \/ TEv \/ TClose \/ TAfter \/ TReopen \/ TEnd
 TSpec == TInit /\ [][TNext]_tvars
 
 Progress == TLCSet(1, IF l > TLCGet(1) THEN l ELSE TLCGet(1))
